@@ -36,13 +36,25 @@ def make_scripted(rec, script):
             if not ed:
                 return
             what, a, b = ed
+
+            def put(name, rs):
+                # every other edit is written IN PLACE into the ndarray jesse formatted earlier (when the shape allows it),
+                # the rest re-assigns a list / an ndarray: all are legal ways to change a declaration
+                cur = getattr(self, name)
+                k = sum(int(q) + int(p) for q, p in rs)
+                if isinstance(cur, np.ndarray) and cur.shape == (len(rs), 2) and k % 2 == 0:
+                    cur[:, :] = np.array(rows(rs), dtype=float)
+                elif k % 3 == 0:
+                    setattr(self, name, np.array(rows(rs), dtype=float))
+                else:
+                    setattr(self, name, rows(rs))
             if what == 'sl':
-                self.stop_loss = rows(a)
+                put('stop_loss', a)
             elif what == 'tp':
-                self.take_profit = rows(a)
+                put('take_profit', a)
             elif what == 'both':
-                self.stop_loss = rows(a)
-                self.take_profit = rows(b)
+                put('stop_loss', a)
+                put('take_profit', b)
             elif what == 'liq':
                 self.liquidate()
 
